@@ -720,6 +720,8 @@ static int vnadata_save_common(vnadata_t *vdp, FILE *fp, const char *filename,
     const double complex *z0_vector = NULL;
     double z0_touchstone = 50.0;
     vnadata_t *conversions[VPT_NTYPES];
+    vnadata_internal_t *vdip_orig = NULL;
+    vnadata_filetype_t filetype_orig = VNADATA_FILETYPE_AUTO;
 
     /*
      * Validate pointer.
@@ -734,6 +736,8 @@ static int vnadata_save_common(vnadata_t *vdp, FILE *fp, const char *filename,
 	return -1;
     }
     aprecision = MAX(vdip->vdi_dprecision, 3);
+    vdip_orig = vdip;
+    filetype_orig = vdip->vdi_filetype;
 
     /*
      * Init conversions to NULL.
@@ -1543,6 +1547,10 @@ static int vnadata_save_common(vnadata_t *vdp, FILE *fp, const char *filename,
     rc = 0;
 
 out:
+    if (rc != 0 && vdip_orig != NULL) {
+	/* a refused save leaves the file type setting as it was */
+	vdip_orig->vdi_filetype = filetype_orig;
+    }
     if (function == vnadata_save_name && fp != NULL) {
 	(void)fclose(fp);
 	fp = NULL;
